@@ -359,31 +359,41 @@ def run(chk, facts):
             raise AnchorError(f"State::token: {len(ifs)} branches compare line_indent with cur_indent")
         br = ifs[0]
 
+        mk = {"CaretPos::new": lambda l_, p_: {"line": l_, "pos": p_}, "Lex::new": lambda a_, b_: ("lex", a_, b_),
+              "from_elem": lambda x, n_: ("list", [x] * n_) if isinstance(n_, int) and 0 <= n_ < 4096 else ("neg", n_)}
+
         def side(block):
-            ind = [n for n in walk(block) if n.get("k") == "call" and src(n["f"]).endswith("from_elem") and len(n["args"]) == 2 and "Token::Indent" in src(n["args"][0], -30)]
-            ded = [n for n in walk(block) if n.get("k") == "call" and src(n["f"]).endswith("from_elem") and len(n["args"]) == 2 and "Token::Dedent" in src(n["args"][0], -30)]
-            if len(ind) + len(ded) != 1:
+            """(sign, expression that yields the run of Indent / Dedent tokens handed to `res`)"""
+            runs = [n for n in walk(block) if n.get("k") == "mcall" and n["m"] in ("append", "extend") and src(strip(n["recv"])) == "res" and n["args"] and
+                    ("Token::Indent" in src(n["args"][0], -30) or "Token::Dedent" in src(n["args"][0], -30))]
+            if len(runs) != 1:
                 raise AnchorError("State::token: a branch does not produce exactly one run of Indent or Dedent tokens")
-            return (+1, ind[0]["args"][1]) if ind else (-1, ded[0]["args"][1])
+            return (+1 if "Token::Indent" in src(runs[0]["args"][0], -30) else -1), strip(runs[0]["args"][0])
         then_s, else_s = side(br["then"]), side(br["else"])
         fls = [n for n in walk(inline_lets(fl_["body"])) if n.get("k") == "call" and src(n["f"]).endswith("from_elem") and len(n["args"]) == 2 and "Token::Dedent" in src(n["args"][0], -30)]
         if len(fls) != 1:
             raise AnchorError("flush_indents does not produce exactly one run of Dedent tokens")
-        ev = SmallEval(local_fns=local)
+        ev = SmallEval(local_fns=local, funcs=mk)
+
+        def count(expr, env):
+            v = ev.ev(expr, env)
+            if isinstance(v, tuple) and v and v[0] == "list":
+                return len(v[1])
+            return -1
 
         def flush(x):
-            return ev.ev(fls[0]["args"][1], {"self": {"cur_indent": x, "line_indent": x}})
+            return count(fls[0], {"self": {"cur_indent": x, "line_indent": x, "pos": {"line": 1, "pos": x}}})
         bad = None
         try:
             if flush(1) != 0:
                 bad = f"flush_indents emits {flush(1)} dedents at indentation column 1"
             for ci in range(1, 18):
                 for li in range(1, 18):
-                    env = {"self": {"cur_indent": ci, "line_indent": li}}
+                    env = {"self": {"cur_indent": ci, "line_indent": li, "pos": {"line": 1, "pos": li}}}
                     c = ev.ev(br["c"], env)
-                    sgn, amt_e = then_s if c else else_s
-                    amt = ev.ev(amt_e, env)
-                    if amt < 0 or amt >= 2 ** 31:
+                    sgn, run_e = then_s if c else else_s
+                    amt = count(run_e, env)
+                    if amt < 0 or flush(li) < 0 or flush(ci) < 0:
                         bad = bad or f"from column {ci} to column {li}: a negative number of tokens"
                     elif sgn * amt != flush(li) - flush(ci):
                         bad = bad or (f"a line in column {li} after one in column {ci} gives {amt} {'Indent' if sgn > 0 else 'Dedent'} token(s), but the flush at the end of input "
@@ -399,6 +409,65 @@ def run(chk, facts):
                "the indentation state is no longer updated to the new column / reset to 1 by the flush", facts.loc_of(st_))
     except AnchorError as e:
         chk.anchor_fail("R-C18-4", e)
+
+    # ---------------- R-C18-6 ----------------
+    # the synthetic tokens of State::token have spans too: an Indent stands for the four spaces of its level in front of the first
+    # token of the line (it must not sit on that token), and what is handed out is in the order of the positions
+    chk.rule("R-C18-6", "Indent tokens cover the leading spaces of their level; tokens are handed out in the order of their positions")
+    try:
+        from .smalleval import SmallEval, NoEval
+        from .common import inline_lets, fn_paths
+        st6 = syn.one_fn("token", impl_of="State")
+        local6 = {f["name"]: f for f in syn.fns if f["mod"] == st6["mod"] and f.get("impl_of") is None and f.get("body")}
+        body6 = inline_lets(st6["body"])
+        makers = []
+        for n in walk(body6):
+            if n.get("k") == "mcall" and n["m"] in ("append", "extend", "push") and src(strip(n["recv"])) == "res" and n["args"] and "Token::Indent" in src(n["args"][0], -30):
+                makers.append(n)
+        if len(makers) != 1:
+            raise AnchorError(f"State::token: {len(makers)} places hand out Indent tokens")
+        arg = strip(makers[0]["args"][0])
+        bad6 = None
+        width_indent = len(lm.spelling("Token::Indent") or "")
+        for ci in (1, 5, 9):
+            for li in (ci, ci + 4, ci + 8):
+                ev6 = SmallEval(local_fns=local6, funcs={
+                    "CaretPos::new": lambda l_, p_: {"line": l_, "pos": p_},
+                    "Lex::new": lambda st__, tk__: ("lex", st__, tk__),
+                    "from_elem": lambda x, n_: ("list", [x] * n_ if isinstance(n_, int) and 0 <= n_ < 64 else [])})
+                env6 = {"self": {"cur_indent": ci, "line_indent": li, "pos": {"line": 7, "pos": li}}}
+                try:
+                    v = ev6.ev(arg, env6)
+                except NoEval as ex:
+                    bad6 = bad6 or f"the Indent tokens could not be evaluated ({ex})"
+                    continue
+                got = [(x[1]["line"], x[1]["pos"]) for x in (v[1] if isinstance(v, tuple) and v[0] == "list" else []) if isinstance(x, tuple) and x[0] == "lex" and isinstance(x[1], dict)]
+                want = [(7, c) for c in range(ci, li, 4)]
+                if got != want and not bad6:
+                    where = ", ".join(f"{a}:{b}" for a, b in got) or "-"
+                    bad6 = (f"a line whose first token is in column {li} after one in column {ci}: Indent token(s) recorded at {where}; the {len(want)} level(s) of four spaces "
+                            f"start at {', '.join(f'{a}:{b}' for a, b in want) or '-'}" +
+                            (f" - an Indent is {width_indent} wide, so one recorded at the column of the token overlaps it" if got and got[-1][1] + width_indent > li else ""))
+        chk.ob("R-C18-6", "indent-span", bad6 is None and width_indent == 4, "each Indent token covers the four leading spaces of its level, in front of the first token of the line" if bad6 is None and width_indent == 4 else
+               f"Indent tokens do not cover the spaces they stand for: {bad6 or f'Indent is printed {width_indent} wide'}", facts.loc_of(st6))
+        # order: once something positioned on the current line (the caret) is in `res`, nothing from earlier lines (the batched newlines) follows
+        worst = None
+        for p_ in fn_paths(body6):
+            seen_cur = False
+            for ev_ in p_.events:
+                e_ = strip(ev_)
+                if e_.get("k") != "mcall" or src(strip(e_["recv"])) != "res" or e_["m"] not in ("append", "extend", "push", "insert"):
+                    continue
+                a_s = src(e_["args"][0], -30) if e_["args"] else ""
+                if "self.newlines" in a_s:
+                    if seen_cur:
+                        worst = "the batched newline tokens (positions on earlier lines) are appended after tokens positioned on the current line"
+                elif "self.pos" in a_s:
+                    seen_cur = True
+        chk.ob("R-C18-6", "newline-order", worst is None, "tokens are handed out in the order of their positions" if worst is None else
+               f"State::token: {worst}: after two or more blank lines in front of an indented or dedented line the stream is not ordered by position", facts.loc_of(st6))
+    except AnchorError as e:
+        chk.anchor_fail("R-C18-6", e)
 
     # ---------------- R-C18-5 ----------------
     try:
@@ -494,6 +563,37 @@ def run(chk, facts):
         ok = why_o is None
         chk.ob("R-C18-5", "offset-recorded", ok, "the recorded offset is a caret that runs along with the characters of the literal (next line at a line feed, else one column)" if ok else
                f"the recorded interpolation offset is not the position behind the opening brace: {why_o}", loc)
+        # the shift itself: CaretPos::offset maps a position inside a fragment that starts at `offset` to the position in the whole text -
+        # lines add up (both 1-based), and only the first line of the fragment starts in the column of the offset
+        try:
+            from .smalleval import SmallEval, NoEval
+            of_ = syn.one_fn("offset", impl_of="CaretPos")
+            names_ = [i_["pat"]["name"] for i_ in of_["sig"]["inputs"] if i_.get("pat", {}).get("k") == "pident"]
+            bad_o = None
+            ctor = {"CaretPos::new": lambda l_, p_: {"line": l_, "pos": p_}}
+            for l_ in (1, 2, 3):
+                for p_ in (1, 2, 5):
+                    for ol in (1, 4):
+                        for op_ in (1, 3, 9):
+                            ev_o = SmallEval(funcs=ctor)
+                            env_o = {"self": {"line": l_, "pos": p_}, ([n_ for n_ in names_ if n_ != "self"] or ["offset"])[-1]: {"line": ol, "pos": op_}}
+                            try:
+                                v = ev_o.ev(of_["body"], env_o)
+                            except NoEval:
+                                v = None
+                            if v is None or not isinstance(v, dict):
+                                # struct literal: evaluate its two fields
+                                lit = [n for n in walk(of_["body"]) if n.get("k") == "struct" and n["p"].split("::")[-1] in ("CaretPos", "Self")]
+                                if len(lit) != 1:
+                                    raise NoEval("CaretPos::offset does not build one CaretPos")
+                                v = {fn_: ev_o.ev(fv, env_o) for fn_, fv in lit[0]["fields"]}
+                            want = {"line": ol + l_ - 1, "pos": (op_ + p_ - 1) if l_ == 1 else p_}
+                            if v != want:
+                                bad_o = bad_o or f"({l_}, {p_}) in a fragment that starts at ({ol}, {op_}) is mapped to ({v.get('line')}, {v.get('pos')}), it is at ({want['line']}, {want['pos']})"
+            chk.ob("R-C18-5", "offset-function", bad_o is None, "CaretPos::offset: lines add up; the column is shifted on the first line of the fragment only" if bad_o is None else
+                   f"CaretPos::offset: {bad_o}", facts.loc_of(of_))
+        except (NoEval, AnchorError) as ex:
+            chk.ob("R-C18-5", "offset-function", False, f"CaretPos::offset could not be evaluated ({ex})", loc)
         # a lexical error inside the interpolated text is shifted like the tokens are: its position is relative to the captured text
         td_ = td[0] if td else None
         err_ok, err_why = False, "the re-lexing call was not found"
